@@ -9,6 +9,7 @@
 package avc
 
 import (
+	"bytes"
 	"encoding/hex"
 
 	"github.com/q191201771/lal/pkg/base"
@@ -21,7 +22,8 @@ import (
 )
 
 func ParseSps(payload []byte, ctx *Context) error {
-	br := nazabits.NewBitReader(payload)
+	// 先去掉emulation_prevention_three_byte(7.4.1)，否则之后的字段都会错位
+	br := nazabits.NewBitReader(nal2rbsp(payload))
 	var sps Sps
 	if err := parseSpsBasic(&br, &sps); err != nil {
 		Log.Errorf("parseSpsBasic failed. err=%+v, payload=%s", err, hex.Dump(nazabytes.Prefix(payload, 128)))
@@ -356,4 +358,9 @@ func parseSpsGamma(br *nazabits.BitReader, sps *Sps) (err error) {
 	}
 
 	return nil
+}
+
+// nal2rbsp 去掉nal中的emulation_prevention_three_byte（0x000003 -> 0x0000）
+func nal2rbsp(nal []byte) []byte {
+	return bytes.Replace(nal, []byte{0x0, 0x0, 0x3}, []byte{0x0, 0x0}, -1)
 }
